@@ -45,80 +45,27 @@ def run(p: Program, rep: Report, tier: str) -> None:
             return [e for e in eff if e.kind == kind and pred(e)]
 
         # ---- counters start at zero
+        from .mp_common import _roles
+        have_roles = set(_roles(fn).values())
         for cnt in ("form_parts_count", "form_memory_size_count"):
+            if cnt not in have_roles:
+                continue  # the counter is not a local of the helper: reported as undecided by the per-event rules below
             ini = one("assign", lambda e: e.text == f"{cnt} = 0" and not e.guards)
             if ini:
                 rep.ok("R15.1", f"{name}: {cnt} starts at 0")
             else:
                 rep.violation("R15.1", construct(fn, text=f"{cnt} initial value"), where(fn), f"{name}: {cnt} does not start at 0")
-        # ---- memory counter
-        incs = one("augassign", lambda e: e.text.startswith("form_memory_size_count"))
-        if len(incs) != 1:
-            rep.violation("R15.1", construct(fn, text=f"{len(incs)} increments of form_memory_size_count"), where(fn), f"{name}: the field-byte counter is updated at {len(incs)} places (exactly one expected)")
-        for e in incs:
-            g = set(e.guards)
-            if e.text != "form_memory_size_count += len(event.data)":
-                rep.violation("R15.1", construct(fn, text=e.text), where(fn, e.node), f"{name}: the field-byte counter does not grow by len(event.data)")
-            elif D in g and "file is None" in g and "not (event.more_data)" not in g:
-                rep.ok("R15.1", f"{name}: field bytes are counted on every Data event of a field and on no file path")
+        # ---- the counters, their limits and the file sink: decided on the paths of one loop iteration (mp_iter)
+        from .mp_iter import helper_rules
+        for rule_, kind_, cons_, msg_ in helper_rules(p, name, fn):
+            if not rule_.startswith("R15."):
+                continue
+            if kind_ == "ok":
+                rep.ok(rule_, msg_)
+            elif kind_ == "undecided":
+                rep.undecide(rule_, msg_)
             else:
-                rep.violation("R15.1", construct(fn, text=f"{e.text} under {sorted(g)[-2:]}"), where(fn, e.node), f"{name}: the field-byte counter is not updated on exactly the in-memory field Data paths")
-            ext = one("call", lambda x: x.text == "data.extend(event.data)" and x.block == e.block)
-            if not ext:
-                rep.violation("R15.3", construct(fn, text="count and accumulate in different blocks"), where(fn, e.node), f"{name}: field bytes are accumulated and counted in different branches")
-            raises = [r for r in eff if r.kind == "raise" and "RequestEntityTooLarge" in r.text and any("form_memory_size_count" in gg for gg in r.guards)]
-            ok = False
-            for r in raises:
-                cond = [gg for gg in r.guards if "form_memory_size_count" in gg][0]
-                parent_if = r.node._parent  # type: ignore[attr-defined]
-                same_block = parent_if in _block_of(fn, e) and _block_of(fn, e).index(parent_if) > e.index
-                if cond == "max_form_memory_size is not None and form_memory_size_count > max_form_memory_size" and same_block and set(e.guards) <= set(r.guards):
-                    ok = True
-                    rep.ok("R15.1", f"{name}: `{cond}` is tested right after the increment, in the same Data iteration")
-                    rep.ok("R15.3", f"{name}: an over-limit field is rejected on the event that crosses the limit")
-                elif ">=" in cond:
-                    ok = True
-                    rep.violation("R15.1", construct(fn, text=cond), where(fn, r.node), f"{name}: the field-size limit is compared with >= : a field of exactly the limit is rejected (the statement says 'exceeds')")
-                elif not same_block:
-                    ok = True
-                    rep.violation("R15.3", construct(fn, text="memory limit checked elsewhere"), where(fn, r.node), f"{name}: the field-size limit is not checked in the iteration that adds the bytes (an over-limit field is buffered further before it is rejected)")
-                else:
-                    ok = True
-                    rep.violation("R15.1", construct(fn, text=cond), where(fn, r.node), f"{name}: the field-size limit test is not `max_form_memory_size is not None and form_memory_size_count > max_form_memory_size`")
-            if not ok:
-                rep.violation("R15.1", construct(fn, text="no field-size limit"), where(fn), f"{name}: no RequestEntityTooLarge is raised for the field-size limit")
-        # ---- parts counter
-        incs = one("augassign", lambda e: e.text.startswith("form_parts_count"))
-        if len(incs) != 1:
-            rep.violation("R15.1", construct(fn, text=f"{len(incs)} increments of form_parts_count"), where(fn), f"{name}: the part counter is updated at {len(incs)} places (exactly one expected)")
-        for e in incs:
-            g = set(e.guards)
-            if e.text != "form_parts_count += 1":
-                rep.violation("R15.1", construct(fn, text=e.text), where(fn, e.node), f"{name}: the part counter does not grow by exactly 1")
-            elif D in g and "not (event.more_data)" in g and "file is None" not in g and "not (file is None)" not in g:
-                rep.ok("R15.1", f"{name}: parts are counted once per completed part, field or file")
-            else:
-                rep.violation("R15.1", construct(fn, text=f"{e.text} under {sorted(g)[-2:]}"), where(fn, e.node), f"{name}: the part counter is not updated on exactly the last-Data paths of both fields and files")
-            raises = [r for r in eff if r.kind == "raise" and "RequestEntityTooLarge" in r.text and any("form_parts_count" in gg for gg in r.guards)]
-            if not raises:
-                rep.violation("R15.1", construct(fn, text="no part limit"), where(fn), f"{name}: no RequestEntityTooLarge is raised for the part limit")
-            for r in raises:
-                cond = [gg for gg in r.guards if "form_parts_count" in gg][0]
-                parent_if = r.node._parent  # type: ignore[attr-defined]
-                blk = _block_of(fn, e)
-                same_block = parent_if in blk and blk.index(parent_if) > e.index
-                if cond == "form_parts_count > max_form_parts" and same_block:
-                    rep.ok("R15.1", f"{name}: `{cond}` is tested right after the increment")
-                elif ">=" in cond:
-                    rep.violation("R15.1", construct(fn, text=cond), where(fn, r.node), f"{name}: the part limit is compared with >= : a form with exactly the maximum number of parts is rejected")
-                else:
-                    rep.violation("R15.1", construct(fn, text=cond), where(fn, r.node), f"{name}: the part limit test is not `form_parts_count > max_form_parts` directly after the increment")
-        # ---- R15.5
-        wr = one("call", lambda e: e.text == "file.write(event.data)")
-        if wr and D in wr[0].guards and "not (event.more_data)" not in wr[0].guards:
-            rep.ok("R15.5", f"{name}: upload data is written to the file sink on every Data event")
-        else:
-            rep.violation("R15.5", construct(fn, text="file.write(event.data)"), where(fn), f"{name}: upload data is not streamed to the file sink as it arrives")
+                rep.violation(rule_, construct(fn, text=cons_), where(fn), msg_)
         # defaults of the limits
         a = fn.node.args
         dm = {x.arg: (ast.unparse(d) if d is not None else None) for x, d in zip(a.kwonlyargs, a.kw_defaults)}
